@@ -6,18 +6,23 @@
     OnLost / CancelWrite / STOP_SENDING / getControlFrame / RESET_STREAM acked+lost /
     MAX_STREAM_DATA / MAX_DATA / SetReliableBoundary / enableResetStreamAt / closeForShutdown);
     [frames_of (snd ..)] are the frames popStreamFrame returned, [W] is every byte the
-    application wrote. [late] = the reliable size was raised on an already reset stream
-    (SetReliableBoundary after CancelWrite, enableResetStreamAt after a reset): outside the
-    theorems, see the _refuted statements and notes/C01.md. *)
+    application wrote. [late] = enableResetStreamAt() switched the extension on for a stream
+    that was already reset (only possible for streams opened before the handshake completed):
+    outside the theorems, see notes/C01.md.
+    The model mirrors the code WITH the repairs fixes/C01-write-buffered-after-reset.patch,
+    fixes/C01-fin-on-truncated-frame.patch and fixes/C04-set-reliable-boundary-after-reset-panic.patch;
+    the witnesses that refuted the corresponding statements on the unrepaired code are kept below as
+    regression examples. *)
 From Coq Require Import List ZArith Bool.
 From V Require Import Gen.Params Lib.Hex SendStream.Model SendStream.ProofsBase SendStream.ProofsInv
-  SendStream.ProofsCov SendStream.ProofsOut SendStream.Theorems StreamE2E.Model StreamE2E.Compose.
+  SendStream.ProofsCov SendStream.ProofsOut SendStream.ProofsFin SendStream.Theorems StreamE2E.Model StreamE2E.Compose.
 Import ListNotations.
 Open Scope Z_scope.
 
 (** Every emitted frame carries exactly the written bytes of its range and lies inside what was
-    written; first transmissions are contiguous from 0 to writeOffset; on a stream that was never
-    reset a FIN is only set after Close and exactly at the final size. *)
+    written; first transmissions are contiguous from 0 to writeOffset; a FIN is only set after
+    Close and exactly at the final size — reset or not (it was refuted for reset streams before
+    the repair: a frame truncated to the reliable size kept its FIN). *)
 Theorem C01_sender_frames_consistent :
   forall (sid0 : Z) (rsa : bool) (swin cwin : Z) (ops : list op),
   let s := fst (run (init sid0 rsa swin cwin) ops) in
@@ -27,8 +32,7 @@ Theorem C01_sender_frames_consistent :
      0 <= f_off f /\ f_end f <= zlen (W s) /\
      f_data f = zfirstn (zlen (f_data f)) (zskipn (f_off f) (W s))) /\
   contiguous 0 (emittedNew s) (writeOffset s) /\
-  (resetErr s = None -> forall f, In f E -> f_fin f = true ->
-     finishedWriting s = true /\ f_end f = zlen (W s)).
+  (forall f, In f E -> f_fin f = true -> finishedWriting s = true /\ f_end f = zlen (W s)).
 Proof. exact sender_frames_consistent. Qed.
 Print Assumptions C01_sender_frames_consistent.
 
@@ -68,7 +72,7 @@ Theorem C01_end_to_end_prefix :
   (forall f, In f (delivered evs) -> In f E) ->
   late s = false ->
   (exists rest, W s = all_read rs ++ rest) /\
-  (resetErr s = None -> saw_eof rs = true -> all_read rs = W s /\ finishedWriting s = true).
+  (saw_eof rs = true -> all_read rs = W s /\ finishedWriting s = true).
 Proof. exact end_to_end_prefix. Qed.
 Print Assumptions C01_end_to_end_prefix.
 
@@ -80,7 +84,7 @@ Theorem C01_complete_if_covered :
   let E := frames_of (snd (run (init sid0 rsa swin cwin) ops)) in
   (forall f, In f (delivered evs) -> In f E) ->
   forall n,
-  resetErr s = None ->
+  late s = false ->
   (forall i, 0 <= i < zlen (W s) -> exists f, In f (delivered evs) /\ f_off f <= i < f_end f) ->
   (exists f, In f (delivered evs) /\ f_fin f = true) ->
   zlen (W s) <= n ->
@@ -103,41 +107,57 @@ Example C01_nonvacuous :
 Proof. vm_compute. repeat split. Qed.
 Print Assumptions C01_nonvacuous.
 
-(** REFUTED by the faithful model (each witness is replayed on the implementation by the harness,
-    scripted cases -1, -2, -3 of unit sendstream; see known_findings.json):
+(** A stream that was reset without a reliable size never holds a buffered frame (before the
+    repair a parked Write buffered its data after the reset and the stream could never complete),
+    and isNewlyCompleted fires as soon as nothing is in flight, queued or buffered. *)
+Theorem C01_reset_stream_holds_no_buffer :
+  forall (sid0 : Z) (rsa : bool) (swin cwin : Z) (ops : list op),
+  let s := fst (run (init sid0 rsa swin cwin) ops) in
+  late s = false -> resetErr s <> None -> ro s = 0 -> nextFrame s = None.
+Proof. exact reset_stream_holds_no_buffer. Qed.
+Print Assumptions C01_reset_stream_holds_no_buffer.
 
-    1. FIN only at the final size — false once CancelWrite (after Close) meets a reliable size:
-       OnLost truncates the lost frame to the reliable size and keeps its FIN. *)
-Theorem C01_fin_at_final_size_refuted :
-  exists ops, let r := run (init 0 true 1048576 1048576) ops in
+Theorem C01_completion_fires :
+  forall s,
+  completed s = false -> nfLen s = 0 -> numOut s <= 0 -> retransQ s = [] -> queuedReset s = None ->
+  (finSent s = true \/ (resetErr s <> None /\ (cancellationFlagged s = true \/ finishedWriting s = true))) ->
+  snd (newly_completed s) = true /\ completed (fst (newly_completed s)) = true.
+Proof. exact newly_completed_fires. Qed.
+Print Assumptions C01_completion_fires.
+
+(** Regression examples: the three witnesses that the faithful model of the UNREPAIRED code
+    produced (and the harness replays on the implementation as scripted cases -1, -4, -5 of unit
+    sendstream), evaluated on the model of the repaired code.
+
+    1. Close; CancelWrite with a reliable size; the frame carrying the FIN is lost:
+       the retransmission is truncated to the reliable size and no longer carries the FIN. *)
+Example C01_fin_witness_repaired :
+  let r := run (init 0 true 1048576 1048576)
+    [OWrite (repeat 1 50); ORel; OWrite (repeat 2 50); OClose; OPop 1452; OCancel 7; OCtrl; OLost 0; OPop 1452] in
   late (fst r) = false /\
-  exists f, In f (frames_of (snd r)) /\ f_fin f = true /\ f_end f <> zlen (W (fst r)).
-Proof.
-  exists [OWrite (repeat 1 50); ORel; OWrite (repeat 2 50); OClose; OPop 1452; OCancel 7; OCtrl; OLost 0; OPop 1452].
-  vm_compute. split; [reflexivity|]. eexists. split; [right; left; reflexivity|]. split; [reflexivity|discriminate].
-Qed.
-Print Assumptions C01_fin_at_final_size_refuted.
+  map (fun f => (f_off f, zlen (f_data f), f_fin f)) (frames_of (snd r)) = [(0, 100, true); (0, 50, false)] /\
+  map o_ctrl (snd r) = [None; None; None; None; None; None; Some (mkR 100 7 50); None; None].
+Proof. vm_compute. repeat split. Qed.
+Print Assumptions C01_fin_witness_repaired.
 
-(**  2. "after everything is acked the stream reports completion" — false: a Write parked behind a
-       buffered frame is woken by STOP_SENDING, buffers its data AFTER the reset, returns (n, nil),
-       and isNewlyCompleted can never become true again. *)
-Theorem C01_completes_after_reset_refuted :
-  exists ops, let r := run (init 4 false 600 1048576) ops in
-  let s := fst r in
-  In (Some (1200, 0, 0)) (map o_wres (snd r)) /\   (* Write(1200 bytes) = (1200, nil) after the reset *)
-  resetErr s <> None /\ cancellationFlagged s = true /\ finishedWriting s = true /\
-  numOut s = 0 /\ retransQ s = [] /\ queuedReset s = None /\ outReset s = [] /\
-  completed s = false /\ nfLen s = 1200.
+(**  2. STOP_SENDING while a Write is parked behind a buffered frame: the Write now returns the
+       remote StreamError (class 2, code 5, 0 bytes), and the stream completes once the
+       RESET_STREAM is acknowledged. *)
+Example C01_completion_witness_repaired :
+  let r := run (init 4 false 600 1048576)
+    [OWrite (repeat 1 1000); OPop 1452; OWrite (repeat 2 1200); OStop 5; OResume; OClose; OCtrl; ORAcked 0; OAcked 0] in
+  In (Some (0, 2, 5)) (map o_wres (snd r)) /\ ~ In (Some (1200, 0, 0)) (map o_wres (snd r)) /\
+  completed (fst r) = true /\ nfLen (fst r) = 0 /\ fold_left Z.add (map o_done (snd r)) 0 = 1.
 Proof.
-  exists [OWrite (repeat 1 1000); OPop 1452; OWrite (repeat 2 1200); OStop 5; OResume; OClose; OCtrl; ORAcked 0; OAcked 0].
-  vm_compute. repeat split; try discriminate. do 4 right. left. reflexivity.
+  vm_compute. repeat split; try discriminate.
+  - do 4 right. left. reflexivity.
+  - intros H. repeat (destruct H as [H|H]; [discriminate H|]). exact H.
 Qed.
-Print Assumptions C01_completes_after_reset_refuted.
+Print Assumptions C01_completion_witness_repaired.
 
-(**  3. the code never panics — false: SetReliableBoundary after CancelWrite revives the counter path. *)
-Theorem C01_no_panic_refuted :
-  exists ops, panicked (fst (run (init 0 true 1048576 1048576) ops)) = true.
-Proof.
-  exists [OWrite (repeat 1 100); OPop 1452; OCancel 1; ORel; OAcked 0]. vm_compute. reflexivity.
-Qed.
-Print Assumptions C01_no_panic_refuted.
+(**  3. SetReliableBoundary after CancelWrite, then an ACK: no panic any more (repair of C04). *)
+Example C01_panic_witness_repaired :
+  let r := run (init 0 true 1048576 1048576) [OWrite (repeat 1 100); OPop 1452; OCancel 1; ORel; OAcked 0] in
+  panicked (fst r) = false /\ late (fst r) = false.
+Proof. vm_compute. split; reflexivity. Qed.
+Print Assumptions C01_panic_witness_repaired.
